@@ -12,6 +12,7 @@ from joblib import Parallel, delayed
 from tqdm.auto import tqdm
 
 from pgmpy.base import DAG
+from pgmpy.factors.base import BaseFactor
 from pgmpy.factors.continuous import ContinuousFactor
 from pgmpy.factors.discrete import (
     DiscreteFactor,
@@ -338,7 +339,7 @@ class BayesianNetwork(DAG):
         >>> student.remove_cpds(cpd)
         """
         for cpd in cpds:
-            if isinstance(cpd, (str, int)):
+            if not isinstance(cpd, BaseFactor):
                 cpd = self.get_cpds(cpd)
             self.cpds.remove(cpd)
 
